@@ -91,6 +91,25 @@ def check_queries(ctx, fx, RULE, suffix):
         ctx.require(pol == {want}, RULE, q + suffix, "the liveness query must poll its handle's termination future and report %s: derived %s%s" % ("stopped=ready" if want == "S" else "running=not ready", sorted(pol), " — Shared::peek only sees a result some clone has already polled out" if "PEEK" in pol or any("peek" in p for p in pol) else ""), fn=q, site=f["loc"], detail=sorted(pol))
 
 
+class _RestoreOnReady(nfa.Spec):
+    init = ("s0",)
+
+    def step(self, st, label):
+        ev = label.split("@")[0]
+        ph = st[0]
+        if ev == "call:poll":
+            return ("polled",)
+        if ph in ("polled", "ready") and ev in ("sw:Poll::Pending", "bool:is_ready=0", "bool:is_pending=1"):
+            return ("pending",)
+        if ph == "polled" and ev in ("sw:Poll::Ready", "bool:is_ready=1", "bool:is_pending=0"):
+            return ("ready",)
+        if ev == "stmt:restore" and ph in ("polled", "ready"):
+            return ("restored",)
+        if ev == "ret" and ph in ("polled", "ready"):
+            return nfa.Err("a path on which the poll may have completed returns without keeping a share")
+        return st
+
+
 def check_inplace_polls(ctx, fx, RULE):
     """A Shared that is polled to completion *in place* gives up its share of the future: the handle could then not be
     cloned, awaited again or asked stopped() (cloning and polling it panics). Every in-place poll of a handle's own
@@ -118,6 +137,25 @@ def check_inplace_polls(ctx, fx, RULE):
                             src = b.origins(b.call_at(o)["args"][0], through_calls="plumbing")
                             if {(x.kind, x.site, x.proj) for x in src if x.kind in ("arg", "upvar")} == {(x.kind, x.site, x.proj) for x in direct}:
                                 restored = True
+            if restored:
+                # ... on every path on which the poll was Ready (also the error outcome)
+                def is_restore(body_, bi_, si_, st_):
+                    if len(st_["p"]) < 2 or st_["r"]["k"] != "use":
+                        return None
+                    for o in body_.origins(st_["r"]["o"], through_calls=False):
+                        if o.kind == "call" and (body_.call_at(o).get("callee") or "").endswith("Clone::clone") and SHARED in " ".join(body_.call_at(o).get("argtys", [])):
+                            return "stmt:restore"
+                    return None
+                RA = nfa.Alphabet(calls=[("poll", lambda x, _t=t: x is _t), ("is_ready", nfa.callee_ends("poll::{impl#0}::is_ready", "Poll::is_ready")), ("is_pending", nfa.callee_ends("poll::{impl#0}::is_pending", "Poll::is_pending"))],
+                                  adts={"core::task::poll::Poll": "Poll"}, bools={"is_ready", "is_pending"})
+                RA.stmt_fn = is_restore
+                rn = nfa.build(b, RA)
+                rv, rps = nfa.check(rn, _RestoreOnReady())
+                ctx.count_nfa(rn.stats(), rps)
+                if rv:
+                    restored = False
+                    ctx.viol(RULE, "in-place-poll-restores:%s" % f["def"], "the share is restored on some outcomes of the in-place poll only: " + rv[0]["msg"], fn=f["def"], site=t["l"], trace=rv[0]["trace"])
+                    continue
             ctx.require(restored, RULE, "in-place-poll-restores:%s" % f["def"], "the handle's own termination future is polled in place without keeping a share: after completion this handle (and clones / weak addresses made from it) panic on stopped(), clone().await, …", fn=f["def"], site=t["l"])
     return n
 
